@@ -69,15 +69,13 @@ Definition opt_rel {A : Type} (R : A -> A -> Prop) (x y : option A) : Prop :=
   end.
 
 (** two states that no getter can tell apart, now or after undoing journal entries.
-    Not compared: journal, dirties, revisions, nextRevisionId, pending/dirty sets, crash flag,
+    Not compared: the transaction context (thash/txIndex are not journalled by design), journal, dirties, revisions, nextRevisionId, pending/dirty sets, crash flag,
     the exact shape of the storage caches, dirtyCode. *)
 Record eqv (s1 s2 : state) : Prop := {
   ev_trie : st_trie s1 = st_trie s2;
   ev_destruct : forall a, st_destruct s1 a = st_destruct s2 a;
   ev_objs : forall a, opt_rel (obj_eqv (st_destruct s1 a)) (peek s1 a) (peek s2 a);
   ev_refund : st_refund s1 = st_refund s2;
-  ev_thash : st_thash s1 = st_thash s2;
-  ev_txindex : st_txindex s1 = st_txindex s2;
   ev_logs : forall t, st_logs s1 t = st_logs s2 t;
   ev_logsize : st_logsize s1 = st_logsize s2;
   ev_preimages : forall h, st_preimages s1 h = st_preimages s2 h;
@@ -105,16 +103,16 @@ Proof. intro s; constructor; auto. intro a; apply opt_rel_refl; apply obj_eqv_re
 
 Lemma eqv_sym : forall s1 s2, eqv s1 s2 -> eqv s2 s1.
 Proof.
-  intros s1 s2 [? Hd Ho ? ? ? ? ? ? ? ? ?]; constructor; auto.
+  intros s1 s2 [? Hd Ho ? ? ? ? ? ? ?]; constructor; auto.
   intro a; specialize (Ho a); rewrite <- Hd.
   destruct (peek s1 a), (peek s2 a); cbn in *; auto using obj_eqv_sym.
 Qed.
 
 Lemma eqv_trans : forall s1 s2 s3, eqv s1 s2 -> eqv s2 s3 -> eqv s1 s3.
 Proof.
-  intros s1 s2 s3 [? Hd1 Ho1 ? ? ? Hl1 ? Hp1 Ha1 ? Ht1] [? Hd2 Ho2 ? ? ? Hl2 ? Hp2 Ha2 ? Ht2].
+  intros s1 s2 s3 [? Hd1 Ho1 ? Hl1 ? Hp1 Ha1 ? Ht1] [? Hd2 Ho2 ? Hl2 ? Hp2 Ha2 ? Ht2].
   constructor;
-    [ congruence | intro a; rewrite Hd1; apply Hd2 | | congruence | congruence | congruence
+    [ congruence | intro a; rewrite Hd1; apply Hd2 | | congruence
     | intro t; rewrite Hl1; apply Hl2 | congruence | intro h; rewrite Hp1; apply Hp2
     | intro a; rewrite Ha1; apply Ha2 | congruence | intros a k; rewrite Ht1; apply Ht2 ].
   intro a; specialize (Ho1 a); specialize (Ho2 a); rewrite <- Hd1 in Ho2.
@@ -226,7 +224,7 @@ Lemma eqv_frame : forall s1 s2 s1' s2',
   (forall x, opt_rel (obj_eqv (st_destruct s1 x)) (peek s1' x) (peek s2' x)) ->
   eqv s1' s2'.
 Proof.
-  intros s1 s2 s1' s2' [? ? ? ? ? ? ? ? ? ? ? ?] G1 G2 Hp. unglob G1. unglob G2.
+  intros s1 s2 s1' s2' [? ? ? ? ? ? ? ? ? ?] G1 G2 Hp. unglob G1. unglob G2.
   constructor; try congruence.
   all: try (intros; congruence).
   intro a. replace (st_destruct s1' a) with (st_destruct s1 a) by congruence. apply Hp.
@@ -373,8 +371,8 @@ Proof.
     { eapply eqv_frame; eauto; try reflexivity.
       intro x; rewrite !peek_put. eqb x a; [cbn; apply obj_eqv_refl | apply (ev_objs _ _ H)]. }
     destruct prevdestruct; [exact X|].
-    destruct X as [? Hd Ho ? ? ? ? ? ? ? ? ?]. constructor; ss; auto.
-    + intro x; unfold tupd. destruct (N.eqb x a); auto. apply Hd.
+    destruct X as [? Hd Ho ? ? ? ? ? ? ?]. constructor; ss; auto.
+    + intro x; unfold tupd. destruct (N.eqb x a); auto.
     + intro x; specialize (Ho x). unfold peek in *; ss. unfold tupd, fupd in *.
       eqb x a; [cbn; apply obj_eqv_refl | exact Ho].
   - apply with_live_eqv; auto using f_suicide_eqv.
@@ -389,12 +387,12 @@ Proof.
     { intros s s' E; rewrite (ev_logsize _ _ E); destruct E; constructor; ss; auto. }
     apply X. rewrite (ev_logs _ _ H). destruct (st_logs s2 txhash).
     + destruct H; constructor; ss; auto.
-    + destruct H as [? ? ? ? ? ? Hl ? ? ? ? ?]; constructor; ss; auto.
+    + destruct H as [? ? ? ? Hl ? ? ? ? ?]; constructor; ss; auto.
       intro t; unfold tupd. destruct (N.eqb t txhash); auto.
-  - destruct H as [? ? ? ? ? ? ? ? Hp ? ? ?]; constructor; ss; auto.
+  - destruct H as [? ? ? ? ? ? Hp ? ? ?]; constructor; ss; auto.
     intro h'; unfold fdel. destruct (N.eqb h' h); auto.
   - exact H.
-  - destruct H as [? ? ? ? ? ? ? ? ? Ha ? ?]; constructor; ss; auto.
+  - destruct H as [? ? ? ? ? ? ? Ha ? ?]; constructor; ss; auto.
     intro x; unfold fdel. destruct (N.eqb x a); auto.
   - (* access-list slot *)
     unfold delete_slot_al. rewrite (ev_aladdrs _ _ H), (ev_alslots _ _ H).
@@ -403,10 +401,10 @@ Proof.
     destruct (st_aladdrs s2 a) as [[idx|]|]; auto.
     destruct (nth_error (st_alslots s2) idx); auto.
     destruct (remove_n k l).
-    + destruct H as [? ? ? ? ? ? ? ? ? Ha Hs ?]; constructor; ss; auto; try congruence.
+    + destruct H as [? ? ? ? ? ? ? Ha Hs ?]; constructor; ss; auto; try congruence.
       intro x; unfold fupd. destruct (N.eqb x a); auto.
-    + destruct H as [? ? ? ? ? ? ? ? ? Ha Hs ?]; constructor; ss; auto; try congruence.
-  - destruct H as [? ? ? ? ? ? ? ? ? ? ? Ht]; constructor; ss; auto.
+    + destruct H as [? ? ? ? ? ? ? Ha Hs ?]; constructor; ss; auto; try congruence.
+  - destruct H as [? ? ? ? ? ? ? ? ? Ht]; constructor; ss; auto.
     intros x y. destruct (N.eqb x a); auto. unfold tupd. destruct (N.eqb y k); auto.
 Qed.
 
@@ -441,7 +439,7 @@ Lemma pop1_journal : forall e j s, st_journal (pop1 e j s) = j /\ st_revs (pop1 
 Proof.
   intros; unfold pop1.
   pose proof (undo_dirty_ctl e (undo e (set_journal s j))) as H1. pose proof (undo_ctl e (set_journal s j)) as H2.
-  unfold ctl in *. rewrite H2 in H1. inversion H1. ss. auto.
+  unfold ctl in *. rewrite H2 in H1. injection H1 as A B C. rewrite A, B, C. ss. auto.
 Qed.
 
 Lemma pop1_eqv : forall e j s1 s2, eqv s1 s2 -> eqv (pop1 e j s1) (pop1 e j s2).
